@@ -11,6 +11,7 @@ import (
 	"github.com/idena-network/idena-go/blockchain/types"
 	"github.com/idena-network/idena-go/common"
 	"github.com/idena-network/idena-go/config"
+	"github.com/idena-network/idena-go/core/ceremony"
 	"github.com/idena-network/idena-go/core/state"
 	"github.com/idena-network/idena-go/crypto"
 	"github.com/idena-network/idena-go/crypto/vrf/p256"
@@ -35,7 +36,16 @@ func ShortValidation() *config.ValidationConfig {
 }
 
 // History drives one node (the proposer, key 0 = god) through a generated history.
+// cerPlan is what one participant does in one ceremony: consistent short and long answers (so that flips reach a
+// consensus and qualify), the salt and VRF proof that tie them together.
+type cerPlan struct {
+	epoch               uint16
+	short, long         []byte
+	salt, proof, hashed []byte
+}
+
 type History struct {
+	plans  map[int]*cerPlan
 	W      *World
 	N      *Node
 	R      *rand.Rand
@@ -157,8 +167,8 @@ func (h *History) OfferTxs(b int) {
 	case state.ShortSessionPeriod:
 		for i := range w.Keys {
 			if h.part[i] {
-				hh := crypto.Hash([]byte{byte(i)})
-				h.try(i, "answers-hash", &types.Transaction{Type: types.SubmitAnswersHashTx, Payload: hh[:]})
+				pl := h.plan(i)
+				h.try(i, "answers-hash", &types.Transaction{Type: types.SubmitAnswersHashTx, Payload: pl.hashed})
 			}
 		}
 	case state.LongSessionPeriod:
@@ -166,8 +176,11 @@ func (h *History) OfferTxs(b int) {
 			if !h.part[i] {
 				continue
 			}
-			h.try(i, "short-answers", &types.Transaction{Type: types.SubmitShortAnswersTx, Payload: attachments.CreateShortAnswerAttachment([]byte{byte(r.Intn(256))}, 1, 1)})
-			first := h.try(i, "long-answers", &types.Transaction{Type: types.SubmitLongAnswersTx, Payload: LongAnswersPayload(A, w.Keys[i], []byte{byte(r.Intn(256)), byte(r.Intn(256))})})
+			pl := h.plan(i)
+			h.try(i, "short-answers", &types.Transaction{Type: types.SubmitShortAnswersTx, Payload: attachments.CreateShortAnswerAttachment(pl.short, ceremony.FxWordsRnd(pl.proof), 1)})
+			la := &attachments.LongAnswerAttachment{Answers: pl.long, Proof: pl.proof, Key: []byte{1}, Salt: pl.salt}
+			lpay, _ := la.ToBytes()
+			first := h.try(i, "long-answers", &types.Transaction{Type: types.SubmitLongAnswersTx, Payload: lpay})
 			if first != nil && r.Intn(4) == 0 {
 				// the same participant submits a second, different long-answers transaction within the same block interval
 				// (next nonce): acceptable to the pool now, a duplicate once the first one is applied
@@ -191,6 +204,61 @@ func (h *History) OfferTxs(b int) {
 			}
 		}
 	}
+}
+
+// plan returns (creating on first use in an epoch) participant i's ceremony plan.  Most participants answer "left" on
+// every flip with grade A, so flips qualify by consensus and authors are rewarded; the others answer at random.  One
+// flip index is reported by everybody who answers consistently.
+func (h *History) plan(i int) *cerPlan {
+	A, r, w := h.N, h.R, h.W
+	ep := A.App.State.Epoch()
+	if h.plans == nil {
+		h.plans = map[int]*cerPlan{}
+	}
+	if pl, ok := h.plans[i]; ok && pl.epoch == ep {
+		return pl
+	}
+	nShort, nLong := 0, 0
+	if A.VC != nil {
+		nShort, nLong = A.VC.FxFlipsToSolve(w.Addrs[i])
+	}
+	good := i == 0 || h.O.Always[i] || r.Intn(5) != 0 // the proposing identities must stay validated
+	mk := func(n int, long bool) []byte {
+		if n == 0 {
+			return []byte{byte(r.Intn(256))}
+		}
+		a := types.NewAnswers(uint(n))
+		for f := 0; f < n; f++ {
+			switch {
+			case good || r.Intn(2) == 0:
+				a.Left(uint(f))
+			case r.Intn(2) == 0:
+				a.Right(uint(f))
+			}
+			if long {
+				if good && f == 1 {
+					a.Grade(uint(f), types.GradeReported)
+				} else if good || r.Intn(2) == 0 {
+					a.Grade(uint(f), types.GradeA)
+				}
+			}
+		}
+		b := a.Bytes()
+		if len(b) == 0 {
+			b = []byte{0}
+		}
+		return b
+	}
+	pl := &cerPlan{epoch: ep, short: mk(nShort, false), long: mk(nLong, true), salt: []byte{5, byte(i)}}
+	pl.proof = []byte{1, 2, 3}
+	if signer, err := p256.NewVRFSigner(w.Keys[i]); err == nil {
+		seed := A.App.State.FlipWordsSeed()
+		_, pl.proof = signer.Evaluate(seed[:])
+	}
+	hh := crypto.Hash(append(append([]byte{}, pl.short...), pl.salt...))
+	pl.hashed = hh[:]
+	h.plans[i] = pl
+	return pl
 }
 
 // LongAnswersPayload builds a long-answers attachment with a real VRF proof over the state's flip words seed (the proof
